@@ -212,6 +212,9 @@ func (e *Engine) Generate(prop, tier string, seed uint64, run int) *sim.Plan {
 	// one person working on several machines: every replica adopts the identity of replica 0 as
 	// its user (what `git bug user adopt` does), so merge commits on different replicas have the
 	// same author. Drawn from a stream of its own so that it does not shift the other draws.
+	if prop != "C15" {
+		p.Cfg["slash_remote"] = sim.NewRand(sim.Mix(rs, 0x51A5)).Chance(0.2)
+	}
 	if prop != "C14" && prop != "C09" {
 		p.Cfg["shared_user"] = sim.NewRand(sim.Mix(rs, 0x5a5a)).Chance(0.3)
 	}
